@@ -1257,6 +1257,64 @@ type c01Out struct {
 	Phs         []int         `json:"phs"`
 	Oof         bool          `json:"oof"`
 	Unsupported bool          `json:"unsupported"`
+	Wf          bool          `json:"wf"`   // Gorm.Bind.spec: the input is well formed
+	Flat        []interface{} `json:"flat"` // Gorm.Bind.spec: the left-to-right flattening of the bound values
+}
+
+// c01PlainPlaceholders: placeholders of a text that holds no `?` / `$digits` inside literals (true for the texts of the
+// correspondence generator; its NamedExpr terminator alphabet leaves UNBALANCED quotes, so the quote-aware e2e lexer
+// is not usable here).  `?` -> 0, `$n` -> n.
+func c01PlainPlaceholders(text string) []int {
+	out := []int{}
+	for i := 0; i < len(text); i++ {
+		switch text[i] {
+		case '?':
+			out = append(out, 0)
+		case '$':
+			j := i + 1
+			for j < len(text) && text[j] >= '0' && text[j] <= '9' {
+				j++
+			}
+			if j > i+1 {
+				n, _ := strconv.Atoi(text[i+1 : j])
+				out = append(out, n)
+				i = j - 1
+			}
+		}
+	}
+	return out
+}
+
+// c01SpecCheck: suite "spec" - whenever the SPECIFICATION (Model/BindSpec.lean) calls the input well formed, the REAL
+// statement must bind exactly the specified flattening, with placeholders 1..n in order, inside the model.
+func c01SpecCheck(r *Result, dialect string, in interface{}, m *c01Out, realSQL string, realVars []interface{}) {
+	r.H("spec.wf", fmt.Sprint(m.Wf))
+	if !m.Wf {
+		return
+	}
+	r.Case("spec", dialect+canon(in), len(realVars) >= 1)
+	bad := ""
+	phs := c01PlainPlaceholders(realSQL)
+	switch {
+	case m.Oof || m.Unsupported:
+		bad = "well formed but outside the model (oof / unsupported)"
+	case canon(m.Flat) != canon(realVars):
+		bad = "real Statement.Vars differ from the specified flattening"
+	case len(phs) != len(realVars):
+		bad = fmt.Sprintf("%d placeholders in the real text, %d bound values", len(phs), len(realVars))
+	default:
+		for k, p := range phs {
+			if (dialect == "dollar" && p != k+1) || (dialect != "dollar" && p != 0) {
+				bad = fmt.Sprintf("placeholder #%d of the real text is $%d", k+1, p)
+				break
+			}
+		}
+	}
+	if bad != "" {
+		r.Violate(Violation{Kind: "correspondence", Suite: "spec", Input: map[string]interface{}{"dialect": dialect, "val": in},
+			Observed: map[string]interface{}{"sql": realSQL, "vars": realVars},
+			Expected: map[string]interface{}{"flat": m.Flat, "wf": m.Wf}, Note: "real gorm.Statement vs Lean Gorm.Bind.spec: " + bad})
+	}
 }
 
 func c01Tag(j interface{}) string {
@@ -1328,6 +1386,7 @@ func c01Compare(r *Result, dialect string, inputs []interface{}, suite string) {
 		if i%997 == 0 {
 			r.Sample(map[string]interface{}{"suite": suite, "dialect": dialect, "input": in, "sql": reals[i].sql, "vars": reals[i].vars})
 		}
+		c01SpecCheck(r, dialect, in, &m, reals[i].sql, reals[i].vars)
 		if m.Oof || m.SQL != reals[i].sql || canon(m.Vars) != canon(reals[i].vars) {
 			r.Violate(Violation{Kind: "correspondence", Suite: suite, Input: map[string]interface{}{"dialect": dialect, "val": in},
 				Observed: map[string]interface{}{"sql": reals[i].sql, "vars": reals[i].vars},
@@ -1392,6 +1451,7 @@ func init() {
 		}
 		c01Compare(r, in.Dialect, []interface{}{in.Val}, "render")
 	}
+	replayers["C01/spec"] = replayers["C01/render"]
 }
 
 func c01Trunc(s string, n int) string {
